@@ -38,7 +38,7 @@ CONTEXTS = [
     ('definition', '\\newcommand{\\d}{q ', 'r}s'),
     ('end-of-input', 'a ', None),
 ]
-LEADS = ['', 'w ', '\\c', '\\c[o]{m}']
+LEADS = ['', 'w ', '\\c', '\\c[o]{m}', 'w\\%']
 DANGEROUS = ('{', '}', '[', ']', '$', '\\end', '\\begin', '\\item', '\\)', '\\]', '\\(', '\\[')
 _REF_CACHE = {}
 
@@ -88,8 +88,9 @@ def check_even(ctx, lead, k, payload, sub):
     lv = [l for l in leaves(soup) if l.startswith('%')]
     if lv != ['%' + payload]:
         raise H.Violation('C10:comment-leaf', case, 'comment leaves %r, expected exactly [%r]' % (lv, '%' + payload))
-    if soup.find_all('hidden') or soup.count('hidden'):
-        raise H.Violation('C10:payload-searchable', case, 'a command inside the comment is found by find_all')
+    if soup.find_all('hidden') or soup.count('hidden') or soup.find('hidden') is not None or \
+            soup.find_all('\\hidden{q}') or soup.count('\\hidden{q}') or soup.find('\\hidden{q}') is not None:
+        raise H.Violation('C10:payload-searchable', case, 'a command inside the comment is found by search')
     return case
 
 
